@@ -58,7 +58,7 @@ func resultAliasing(env *vh.Env, rep *vh.Report) {
 				}
 				var r1, r2, r3 reflect.Value
 				bad := ""
-				o := vh.GuardTimeout(3*time.Second, func() {
+				o := vh.GuardTimeout(hangLimit, func() {
 					r1 = meth.Call(args)[0]
 					c1 := canon1(r1)
 					mutateForAliasing(obj, n)
@@ -238,7 +238,7 @@ func callbackReentrancy(env *vh.Env, rep *vh.Report) {
 						for i := 1; i <= capacity; i++ {
 							put(i)
 						}
-						out := vh.GuardTimeout(4*time.Second, func() {
+						out := vh.GuardTimeout(hangLimit, func() {
 							if outer == "PutForce" {
 								putForce(1000)
 							} else {
@@ -256,13 +256,13 @@ func callbackReentrancy(env *vh.Env, rep *vh.Report) {
 						}
 						select {
 						case <-innerDone:
-						case <-time.After(3 * time.Second):
+						case <-time.After(hangLimit):
 							rep.Fail("property", name+"."+in+":blocks-forever", fmt.Sprintf("%s.%s started from a %s callback never returned after the %s had finished", name, in, outer, outer), replay)
 							markDead(name)
 							return
 						}
 						sz := -1
-						vh.GuardTimeout(2*time.Second, func() { sz = size() })
+						vh.GuardTimeout(hangLimit, func() { sz = size() })
 						replay["size_after"], replay["evicted"] = sz, evicted
 						mutatingInner := in == "Put" || in == "PutForce" || in == "GetNoWait" || in == "Clear"
 						switch {
